@@ -42,7 +42,17 @@ if os.path.exists(R+'/docgen/costs.tsv'):
     for id in sorted(set(q)|set(t)):
         a=q.get(id,{}); b=t.get(id,{})
         cost.append(f"| {id} | {a.get('wall','?')} | {a.get('executions','?')} | {b.get('wall','?')} | {b.get('executions','?')} | {b.get('exhaustive','?')} |")
-new=open(R+'/docgen/design10.tmpl').read().replace('@@FIXED@@',"\n".join(rows)).replace('@@OPEN@@',"\n".join(openrows)).replace('@@SEEDTABLE@@',"\n".join(seed)).replace('@@COSTTABLE@@',"\n".join(cost))
+fam=[]
+for ef in sorted(glob.glob(R+'/evidence/C*.json')):
+    e=json.load(open(ef))
+    fam.append(f"**{e['property_id']}** (tier of the last run: {e.get('tier','?')})\n")
+    fam.append("| family | variant | what is enumerated | executions | exhaustive |")
+    fam.append("|---|---|---|---|---|")
+    for f in e['coverage'].get('families') or []:
+        ex=f.get('exhaustive', True)
+        fam.append("| %s | %s | %s | %s | %s |" % (f.get('family'), f.get('variant',''), esc(f.get('doc','')), f.get('executions','?'), str(ex).lower()))
+    fam.append("")
+new=open(R+'/docgen/design10.tmpl').read().replace('@@FAMILIES@@',"\n".join(fam)).replace('@@FIXED@@',"\n".join(rows)).replace('@@OPEN@@',"\n".join(openrows)).replace('@@SEEDTABLE@@',"\n".join(seed)).replace('@@COSTTABLE@@',"\n".join(cost))
 s=s[:i]+new+s[j:]
 open(p,'w').write(s)
 print("DESIGN.md §10 regenerated:", len(rows), "fixed,", len(openrows), "open,", len(seed)-2, "seeds,", len(cost)-2, "cost rows")
